@@ -189,6 +189,9 @@ structure SpecSt where
   waits : List SWait := []
   answered : List String := []
   subs : List (String × Key) := []
+  /-- subscriptions that were in force when their key was removed and have not been renewed since: the property says they
+  still hold; the code has dropped them (known finding F13) -/
+  dropped : List (String × Key) := []
   blind : List Key := []          -- keys holding a temporary (not applied) value: reads are outside C09
   nblind : List Key := []         -- keys changed by import: notification duties (C10) are unknown
   tmpv : List (Key × String) := []  -- keys holding a temporary value (SetTmpValue on the node that forwarded a publish):
@@ -247,6 +250,20 @@ def markAnswered (s : SpecSt) (evs : List String) : SpecSt × Option String :=
 
 def verdict (o : Option String) : String := match o with | some m => "spec FAIL " ++ m | none => "spec ok"
 
+/-- after a change of `k` that told everybody who must be told: were the subscribers whose subscription a removal of `k`
+dropped (F13) told as well?  If not, that observation belongs to the known finding - and to nothing else -/
+def verdictF13 (s : SpecSt) (k : Key) (evs : List String) (o : Option String) : String :=
+  match o with
+  | some m => "spec FAIL " ++ m
+  | none =>
+    let lost := ((s.dropped.filter (·.2 == k)).map (·.1)).eraseDups
+    let got := match evs.find? (·.startsWith ("notify:" ++ showKey k ++ ":")) with
+      | some e => ((e.drop ("notify:" ++ showKey k ++ ":").length).toString.splitOn "+")
+      | none => []
+    match lost.find? (fun c => !got.contains c) with
+    | some c => s!"spec KNOWN F13-remove-drops-subscription subscriber {c} of {showKey k} (subscribed before the key was removed) is not told of the new publish"
+    | none => "spec ok"
+
 def specOp (s : SpecSt) (op ans : List String) : SpecSt × String :=
   let evs := evTokens ans
   let (s, dup) := markAnswered s evs
@@ -266,13 +283,18 @@ def specOp (s : SpecSt) (op ans : List String) : SpecSt × String :=
     let r := if (AL.get? s.tmpv key).isSome then requireNotifiedTmp s key c evs
       else if changed && !s.nblind.contains key then requireNotified s key evs else none
     ({ s with vals := AL.set s.vals key ⟨c, ty, de, hist1⟩, blind := s.blind.erase key, nblind := s.nblind.erase key,
-              tmpv := AL.erase s.tmpv key }, verdict r)
+              tmpv := AL.erase s.tmpv key },
+     if changed && !s.nblind.contains key && (AL.get? s.tmpv key).isNone then verdictF13 s key evs r else verdict r)
   | ["remove", k] =>
     let key := parseKey k
     let changed := (AL.get? s.vals key).isSome
     let r := if changed && !s.nblind.contains key then requireNotified s key evs else none
     let r := if (AL.get? s.tmpv key).isSome then none else r
-    ({ s with vals := AL.erase s.vals key, blind := s.blind.erase key, nblind := s.nblind.erase key, tmpv := AL.erase s.tmpv key }, verdict r)
+    -- the subscriptions of the key that are in force now: from here on the code has forgotten them (F13); a client that
+    -- subscribes again is subscribed like anybody else
+    let gone := s.subs.filter (·.2 == key)
+    ({ s with vals := AL.erase s.vals key, blind := s.blind.erase key, nblind := s.nblind.erase key, tmpv := AL.erase s.tmpv key,
+              subs := s.subs.filter (·.2 != key), dropped := (s.dropped ++ gone).eraseDups }, verdict r)
   | "full" :: k :: rest =>
     let key := parseKey k
     let hist := (parseHist (kv rest "hist")).map fun h => (h.id, h.content, h.time)
@@ -332,12 +354,14 @@ def specOp (s : SpecSt) (op ans : List String) : SpecSt × String :=
     let stale := (items.filter fun it => curContent s it.1 != it.2).map (·.1)
     let anyBlind := items.any fun it => s.blind.contains it.1
     let want := if stale.isEmpty then "none" else "change=" ++ "+".intercalate ((stale.map showKey).mergeSort (· ≤ ·))
-    let s2 := { s with subs := (s.subs ++ items.map fun it => (client, it.1)).eraseDups }
+    let s2 := { s with subs := (s.subs ++ items.map fun it => (client, it.1)).eraseDups,
+                       dropped := s.dropped.filter fun p => !(p.1 == client && items.any (·.1 == p.2)) }
     (s2, if anyBlind then "-" else if ans.head? == some want then "spec ok" else s!"spec FAIL subscriber not told about differing keys at once: want [{want}]")
   | "unsub" :: client :: rest =>
     let ks := rest.map parseKey
-    ({ s with subs := s.subs.filter fun p => !(p.1 == client && ks.contains p.2) }, "-")
-  | ["rmclient", client] => ({ s with subs := s.subs.filter (·.1 != client) }, "-")
+    ({ s with subs := s.subs.filter (fun p => !(p.1 == client && ks.contains p.2)),
+              dropped := s.dropped.filter fun p => !(p.1 == client && ks.contains p.2) }, "-")
+  | ["rmclient", client] => ({ s with subs := s.subs.filter (·.1 != client), dropped := s.dropped.filter (·.1 != client) }, "-")
   | _ => (s, "-")
 
 def specStep (s : SpecSt) (ws : List String) : SpecSt × String :=
